@@ -349,7 +349,7 @@ def one_run(acc, seed, tag):
                                   p=r.choice([0.05, 0.2, 0.4]))
         yi.__enter__()
     try:
-        quiet = W.run(max_steps=30000)
+        quiet = W.run(max_steps=6000)       # (quiet runs need a few hundred steps: 506 at most in a quick tier)
         if yi:
             yi.__exit__(None, None, None)
             acc.count("threaded_yields", yi.yields)
@@ -370,8 +370,10 @@ def one_run(acc, seed, tag):
     acc.count("strategy:" + strategy.split(":")[0])
     if latecomer:
         acc.count("latecomer_runs")
+    acc.maxi("steps_at_quiescence", W.steps)
     if not quiet:
-        acc.violation("no-quiescence", "the system did not become quiescent within 30000 scheduler steps (livelock)", w)
+        acc.violation("no-quiescence", "the system did not become quiescent within %d scheduler steps (livelock); retry receipts seen by the server: %d"
+                      % (W.steps, len([1 for ph, t in W.wire_receipts if t[1].get("type") == "retry"])), w)
         W.close()
         return
     sent = [m for m in msgs if m.entity_id is not None]
